@@ -38,7 +38,7 @@ def spec_eval(expr, ns):
     return eval(code, ns)
 
 
-CALL_TIMEOUT_S = 15
+CALL_TIMEOUT_S = 10
 
 
 class Deadlock(BaseException):
@@ -848,7 +848,15 @@ def run_job(job):
     import cflib
     out = {'cflib': cflib.__file__, 'runs': []}
     failed_contracts = set()
+    hangs = {}
     for item in job['items']:
+        if hangs.get(item["contract"], 0) >= 1:
+            # a native call of this contract already ran into the time limit (a change that makes the code loop or block):
+            # do not wait for every remaining witness / counterexample of the same contract
+            out['runs'].append({'contract': item['contract'], 'tag': item.get('tag'), 'ensures': [],
+                                'error': 'skipped: earlier native calls of this contract did not return within the time limit',
+                                'raised': None, 'exc': None, 'result': None, 'trace': [], 'values': dict(item['values'])})
+            continue
         if job.get('stop_on_fail') and item['contract'] in failed_contracts:
             out['runs'].append({'contract': item['contract'], 'tag': item.get('tag'), 'ensures': [], 'error': 'precondition-not-met: skipped (an earlier sample of this contract already failed)',
                                 'raised': None, 'exc': None, 'result': None, 'trace': [], 'values': {}})
@@ -869,6 +877,8 @@ def run_job(job):
         finally:
             ctx.unpatch()
         rec['ensures'] = [list(r) for r in ctx.results]
+        if getattr(ctx, 'hung', False):
+            hangs[c.name] = hangs.get(c.name, 0) + 1
         if getattr(ctx, 'hung', False) and item.get('sample_seed') is not None and not (rec['error'] or '').startswith('contract-run-raised'):
             # bounded stand-in only (the contract is already undecided): a call on a small sampled input that is still running after
             # the time limit is reported as a failing sample, whatever the contract goes on to require - and the remaining
